@@ -158,6 +158,9 @@ op('cat(2)', ['g', 'g2'], lambda a, b: etl.cat(a, b), ('stream:0', 'passall', 'e
 op('cat(header)', ['g'], lambda t: etl.cat(t, header=['x', 'k', 'n']), S0)
 op('stack(2)', ['g', 'g2'], lambda a, b: etl.stack(a, b), ('stream:0', 'passall', 'expand'),
    zero=lambda ts: [_pad(r, 3) for r in _datarows(ts[0])] + [_pad(r, 3) for r in _datarows(ts[1])])
+op('stack(notrim)', ['g', 'g2'], lambda a, b: etl.stack(a, b, trim=False), ('stream:0', 'passall', 'expand'), zero='skip')
+op('stack(nopad)', ['g', 'g2'], lambda a, b: etl.stack(a, b, pad=False), ('stream:0', 'passall', 'expand'), zero='skip')
+op('stack(1,notrim,missing)', ['g'], lambda a: etl.stack(a, trim=False, missing='-'), S0)
 op('addfield(const)', ['g'], lambda t: etl.addfield(t, 'n', 42), S0)
 op('addfield(fn)', ['g'], lambda t: etl.addfield(t, 'n', lambda r: r['v'] * 2), S0)
 op('addfield(index0)', ['g'], lambda t: etl.addfield(t, 'n', 'c', index=0), S0)
@@ -175,7 +178,7 @@ op('annex', ['g', 'g2'], lambda a, b: etl.annex(a, b), ('stream:0', 'passall'),
        _datarows(ts[0]), _datarows(ts[1]), fillvalue=())])
 op('addrownumbers', ['g'], lambda t: etl.addrownumbers(t), S0)
 op('addrownumbers(5,-1)', ['g'], lambda t: etl.addrownumbers(t, 5, -1, 'n'), S0)
-op('addcolumn(long)', ['g'], lambda t: etl.addcolumn(t, 'c', range(1000000)), ('stream:0', 'c02only'), zero='skip')
+op('addcolumn(long)', ['g'], lambda t: etl.addcolumn(t, 'c', range(6000)), ('stream:0', 'c02only'), zero='skip')
 op('addcolumn', ['g'], lambda t: etl.addcolumn(t, 'c', [10, 20, 30]), (), zero='skip')
 op('addcolumn(short)', ['g'], lambda t: etl.addcolumn(t, 'c', [10, 20], index=1),
    zero=lambda ts: [(None, 10, None, None), (None, 20, None, None)])
@@ -290,6 +293,10 @@ op('sort(k,b1,nocache)', ['g'], lambda t: etl.sort(t, 'k', buffersize=1, cache=F
 op('sort(lex,reverse)', ['g'], lambda t: etl.sort(t, reverse=True), ('sorted', 'stateful'))
 op('sort(compound,b2,reverse)', ['g'], lambda t: etl.sort(t, ('k', 'v'), buffersize=2, reverse=True),
    ('sorted', 'stateful'))
+# key order differs from the natural (lexical) row order: a merge that loses its key function is visible
+op('sort(x)', ['g'], lambda t: etl.sort(t, 'x'), ('sorted', 'stateful'))
+op('sort(x,b1)', ['g'], lambda t: etl.sort(t, 'x', buffersize=1), ('sorted', 'stateful'))
+op('sort(x,b2,reverse)', ['g'], lambda t: etl.sort(t, 'x', buffersize=2, reverse=True), ('sorted', 'stateful'))
 op('mergesort', ['g', 'same'], lambda a, b: etl.mergesort(a, b, key='k'), ('sorted', 'stateful', 'expand'),
    zero='skip')
 op('mergesort(b1)', ['g', 'same'], lambda a, b: etl.mergesort(a, b, key='k', buffersize=1),
